@@ -93,6 +93,12 @@ def pins_obligations(ctx, eq, topo):
         has_upper = any(reg.connections[k]["upper"] is not None for k in range(reg.nSegments))
         ctx.oblige(TRUE((lo == "X") == has_lower and (lo in ("X", "wall"))), "T9:%s: lower end is '%s' and %s a lower neighbour" % (nm, lo, "has" if has_lower else "has no"))
         ctx.oblige(TRUE((up == "X") == has_upper and (up in ("X", "wall"))), "T9:%s: upper end is '%s' and %s an upper neighbour" % (nm, up, "has" if has_upper else "has no"))
+    # T10: a wall surface is attached exactly at wall ends, X-point pins exactly at X-point ends
+    for nm, reg in eq.regions.items():
+        lo, up = reg.kind.split(".")
+        for side, endk, wall, pins in (("start", lo, getattr(reg, "wallSurfaceAtStart", None), reg.xPointsAtStart), ("end", up, getattr(reg, "wallSurfaceAtEnd", None), reg.xPointsAtEnd)):
+            ctx.oblige(TRUE((wall is not None) == (endk == "wall")), "T10:%s: wall surface vector at the %s exactly when that end is a wall" % (nm, side))
+            ctx.oblige(TRUE(any(x is not None for x in pins) == (endk == "X")), "T10:%s: an X-point is pinned at the %s exactly when that end is an X-point" % (nm, side))
     # T8: regions joined in y are gridded on the SAME radial psi values, segment by segment
     same = lambda a, b: a is b or (getattr(a, "tag", 0) == getattr(b, "tag", 1) and getattr(a, "n", 0) == getattr(b, "n", 1))
     for nm, reg in eq.regions.items():
